@@ -208,6 +208,17 @@ def IDENT(x):
     return x
 
 
+_SHARED_HTTP = []
+
+
+def shared_http():
+    """One httpx.AsyncClient per worker process (building one costs ~30 ms of TLS set-up and the websocket path never touches it)."""
+    if not _SHARED_HTTP:
+        import httpx
+        _SHARED_HTTP.append(httpx.AsyncClient())
+    return _SHARED_HTTP[0]
+
+
 def variants(pkg_root, pkg_names):
     """name -> (module to patch ws_connect in, factory(fc, cfg) -> async generator factory, payload decoder)"""
     out = {}
@@ -219,7 +230,7 @@ def variants(pkg_root, pkg_names):
 
         def mk(fc, cfg, cls=cls, kind=kind, tv=tv):
             c = cls(ws_url="ws://verif.invalid/ws", ws_headers=cfg.get("ws_headers"), ws_origin=cfg.get("ws_origin"),
-                    ws_connection_init_payload=cfg.get("init_payload"), **clients.tracer_kwargs(kind, tv))
+                    ws_connection_init_payload=cfg.get("init_payload"), http_client=shared_http(), **clients.tracer_kwargs(kind, tv))
             kw = dict(cfg.get("call_kwargs") or {})
             v = cfg.get("variables")
             if callable(v):
@@ -238,7 +249,7 @@ def variants(pkg_root, pkg_names):
 
             def mk(fc, cfg, m=m, kind=kind, tv=tv):
                 c = m.Client(ws_url="ws://verif.invalid/ws", ws_headers=cfg.get("ws_headers"), ws_origin=cfg.get("ws_origin"),
-                             ws_connection_init_payload=cfg.get("init_payload"), **clients.tracer_kwargs(kind, tv))
+                             ws_connection_init_payload=cfg.get("init_payload"), http_client=shared_http(), **clients.tracer_kwargs(kind, tv))
                 gv = cfg.get("gen_kwargs") or {}
                 gv = dict(gv(m) if callable(gv) else gv)
                 gv.setdefault("at", GEN_AT)   # required configured-scalar variable of the generated method (serialised to 86400)
@@ -445,6 +456,99 @@ def differential(vs, loop, part=0, parts=1):
     return probs, runs
 
 
+CONC_SCRIPTS = [
+    ("ack", "next1", "complete", "next2"),
+    ("ack", "ping", "next2", "next1", "complete", "next2"),
+    ("ack", "next1", "error", "next2"),
+    ("ack", "next2", "unknown", "next1"),
+    ("ping",),
+]
+
+
+def concurrent_subscriptions(vs, bound, part=0, parts=1):
+    """Two subscription iterators alive at once on ONE client object, each on its own scripted connection: every interleaving of the
+    two tasks with at most `bound` deviations from FIFO scheduling (virtual loop; scheduling points are the awaits of send / recv /
+    close and the connection context manager).  Each iterator must behave exactly as the protocol model says for ITS frame sequence
+    (frames after the terminating frame must not be read: scripts carry a trailing `next`)."""
+    import itertools
+    from mc.explorer import Explorer
+    from mc.vloop import VirtualLoop
+    probs, runs, scheds, states = [], 0, 0, set()
+    pairs = list(itertools.product(range(len(CONC_SCRIPTS)), repeat=2))
+    work = [(vname, pa) for vname in sorted(vs) for pa in pairs]
+    for wi, (vname, (ia, ib)) in enumerate(work):
+        if wi % parts != part:
+            continue
+        mod, mk, decode = vs[vname]
+        scripts = {"A": CONC_SCRIPTS[ia], "B": CONC_SCRIPTS[ib]}
+        seen_problem = set()
+
+        def run(choose):
+            conns = {}
+
+            def connect(*a, **k):
+                h = k.get("extra_headers") or k.get("additional_headers") or {}
+                tag = dict(h).get("X-Sub", "?")
+                fc = FakeConnect(list(scripts.get(tag, ())))
+                conns[tag] = fc
+                return fc(*a, **k)
+            old = mod.ws_connect
+            mod.ws_connect = connect
+            umod = sys.modules[mod.__name__]
+            old_uuid = getattr(umod, "uuid4", None)
+            umod.uuid4 = lambda: OPID
+            loop = VirtualLoop()
+            try:
+                fa = mk(None, {"call_kwargs": {"extra_headers": {"X-Sub": "A"}}})
+                client = fa.__closure__[0].cell_contents
+                if hasattr(client, "tick"):
+                    fb = lambda: client.tick(at=GEN_AT, extra_headers={"X-Sub": "B"})
+                else:
+                    fb = lambda: client.execute_ws(query=QUERY, operation_name="Tick", variables=None, extra_headers={"X-Sub": "B"})
+                res = loop.run_controlled([drive(fa, None), drive(fb, None)], choose, max_steps=5000)
+            finally:
+                mod.ws_connect = old
+                if old_uuid is not None:
+                    umod.uuid4 = old_uuid
+                loop.close()
+            obs = {}
+            for tag, (st, r) in zip("AB", res):
+                if st != "ok":
+                    obs[tag] = ("harness_exc", repr(r), [], [])
+                    continue
+                yielded, outcome, exc = r
+                try:
+                    got = [decode(y) for y in yielded]
+                except Exception as e:  # noqa
+                    got = [f"undecodable {e!r}"]
+                fc = conns.get(tag)
+                sent = [classify_sent(m)[0] for m in fc.ws.sent] if fc else None
+                obs[tag] = (outcome, repr(exc) if exc else None, got, sent)
+            return obs
+
+        def on_result(choices, sizes, obs):
+            nonlocal runs, scheds
+            runs += 1
+            scheds += 1
+            states.add((vname, ia, ib, json.dumps(obs, default=str, sort_keys=True)))
+            for tag in "AB":
+                sent, yielded, outcome = expected_for(scripts[tag])
+                want = (outcome, list(yielded), sent)
+                o = obs[tag]
+                got = (o[0], o[2], o[3])
+                key = (tag, json.dumps(got, default=str, sort_keys=True))
+                if got != want and key not in seen_problem:
+                    seen_problem.add(key)
+                    probs.append(("concurrent_subscription_differs", vname, f"concurrent:{tag}", [list(scripts["A"]), list(scripts["B"])],
+                                  f"iterator {tag} (frames {list(scripts[tag])}) run concurrently with another subscription on the same client, schedule {list(choices)}: "
+                                  f"outcome/yielded/sent {got!r} ({o[1]}), alone and per the model {want!r}"))
+        ex = Explorer(run, bound=bound, max_runs=4000)
+        ex.run_all(on_result)
+        if ex.capped:
+            probs.append(("harness_capped", vname, "concurrent", [list(scripts["A"]), list(scripts["B"])], "schedule cap hit"))
+    return probs, runs, len(states)
+
+
 def worker(case):
     pkg_root, pkg_names, states, cfg_mode = case
     loop = asyncio.new_event_loop()
@@ -464,6 +568,15 @@ def worker(case):
         part, parts = map(int, cfg_mode.split(":")[1].split("/"))
         probs, runs = differential(vs, loop, part, parts)
         res["replays"] += runs
+        res["problems"].extend(probs)
+        loop.close()
+        return res
+    if cfg_mode.startswith("concurrent"):
+        part, parts, bound = map(int, re.split("[:/]", cfg_mode)[1:4])
+        probs, runs, nobs = concurrent_subscriptions(vs, bound, part, parts)
+        res["replays"] += runs
+        res["schedules"] = runs
+        res["concurrent_outcomes"] = nobs
         res["problems"].extend(probs)
         loop.close()
         return res
@@ -612,12 +725,16 @@ def main(tier):
         small = [s for s in states if len(s["hist"]) <= (2 if tier == "quick" else 3)]
         cases += [(pkg_root, pkg_names, small[i::8], "product") for i in range(8) if small[i::8]]
         cases += [(pkg_root, pkg_names, [], f"differential:{i}/12") for i in range(12)]
-        replays = 0
+        cbound = 2 if tier == "quick" else 3
+        cases += [(pkg_root, pkg_names, [], f"concurrent:{i}/16/{cbound}") for i in range(16)]
+        replays = schedules = conc_outcomes = 0
         for (st, r) in pool.run_cases(worker, cases, timeout=3000):
             if st != "ok":
                 rep.violation("harness_" + st, [], str(r)[:800], {"stage": "replay"})
                 continue
             replays += r["replays"]
+            schedules += r.get("schedules", 0)
+            conc_outcomes += r.get("concurrent_outcomes", 0)
             for clause, vname, cfgl, hist, detail in r["problems"]:
                 rep.violation(clause, [f"variant:{vname}", f"cfg:{cfgl}"], detail, {"frames": hist, "variant": vname, "config": cfgl})
         # real library binding
@@ -658,6 +775,10 @@ def main(tier):
             "real_library_scripts_bound": bound_scripts,
             "exhaustive": True,
             "differential_frames": sorted(WIRE_X),
+            "concurrent_subscription_schedules": schedules,
+            "concurrent_subscription_deviation_bound": cbound,
+            "concurrent_subscription_script_pairs": len(CONC_SCRIPTS) ** 2,
+            "concurrent_subscription_distinct_observations": conc_outcomes,
             **real_summary,
         }, assumptions=["frames outside the stated alphabet (JSON non-objects, next with null data, foreign ids, payload variants ...) have no reference expectation in the model; "
                                      "for them only the statement's 'the OpenTelemetry variant behaves identically' is decided (differential pass over all sequences of <= 2 such frames)",
